@@ -125,6 +125,9 @@ func randString(cnt any, letters string) (string, error) {
 	if err != nil {
 		return "", err
 	}
+	if n < 0 {
+		return "", fmt.Errorf("randString length must not be negative, got %d", n)
+	}
 	if n == 0 {
 		n = 1
 	}
